@@ -36,6 +36,8 @@ mod source;
 mod stack_ops;
 mod utils;
 mod validation;
+#[cfg(feature = "verif-hooks")]
+pub mod verif;
 
 pub use source::{EntropySource, GenerationSource};
 
